@@ -194,7 +194,13 @@ pub fn check_program(prog: &Program, surface: Surface, seed: u64, thorough: bool
                     }
                 }
             }
-            Err(_) => rep.inc("skipped_refdfa_budget_rewrite"),
+            Err(_) => {
+                rep.inc("skipped_refdfa_budget_rewrite");
+                if let Some(why) = provably_different(&rl, &rs) {
+                    tainted = true;
+                    rep.violation("rewrite", &format!("rewrite:{}", callsig), format!("step {} {}: call {} should denote {} but the resulting term is {} ({})", k, op.to_text(), callsig, short(&rl.show(), 200), term_text(t), why), kind, &case_for(k), seed);
+                }
+            }
         }
         if tainted {
             // an operand is already wrong: end-to-end comparisons below would only repeat that finding
@@ -400,6 +406,9 @@ pub fn run(p: &Params, rep: &mut Report) {
         }
         rep.count("simple_pattern_programs", n);
     }
+    for_max_loop_programs(p, rep, p.size(12, 120), |prog, seed, rep| {
+        check_program(prog, Surface::Mgr, seed, thorough, rep, true);
+    });
     let nprog = p.size(150, 1500);
     let mut rng = p.rng(1);
     let weights = [(Profile::Boundary, 25), (Profile::Loops, 25), (Profile::Boolean, 20), (Profile::Patterns, 15), (Profile::Mixed, 15)];
